@@ -191,6 +191,9 @@ class Pool:
 # ----------------------------------------------------------------------------------------------
 # run context
 # ----------------------------------------------------------------------------------------------
+VIOLATING_CELL_CAP = int(os.environ.get("VERIF_VIOLATING_CELL_CAP", "48"))
+
+
 class HarnessError(Exception):
     """The harness could not run or was vacuous: exit 2, never a verdict."""
 
@@ -258,10 +261,17 @@ class Ctx:
     def pmap(self, target: str, cells, workers: int | None = None, chunksize: int = 1, progress: bool = False):
         cells = list(cells)
         with Pool(workers if workers is not None else (n_workers() if len(cells) > 1 else 1)) as pool:
-            done = 0
+            done, violating = 0, 0
             for r in pool.imap(target, cells, chunksize=chunksize):
                 self.merge_result(r)
                 done += 1
+                if any(not self.findings.is_open(self.prop, v["key"]) for v in r.get("violations", [])):
+                    violating += 1
+                    if violating >= VIOLATING_CELL_CAP and done < len(cells):
+                        # the property is refuted many times over: do not spend the rest of the exploration on a broken tree
+                        # (never taken where the property holds: there are no violating cells)
+                        self.caps_hit.append(f"stopped after {violating} cells with violations ({done} of {len(cells)} cells explored)")
+                        break
                 if progress and done % max(1, len(cells) // 10) == 0:
                     print(f"  .. {done}/{len(cells)} cells, {time.time() - self.t0:.0f}s", flush=True)
 
